@@ -74,6 +74,10 @@ AllTerms == { Atom("lt", FALSE, IV(2)), Atom("eq", TRUE, X), Not(Atom("eq", TRUE
 AttrParts ==
     {<<"any", <<ELit(X)>>>>, <<"any", <<ELit(IV(1))>>>>, <<"any", <<ELit(X), ELit(IV(2))>>>>,
      <<"any", <<ETerm(Atom("eq", TRUE, X)), ELit(IV(1))>>>>, <<"any", <<EFn(Atom("lt", FALSE, IV(2)))>>>>,
+     \* several Boolean alternatives, one of which raises on an attribute the other one accepts
+     <<"any", <<ETerm(Atom("startswith", FALSE, X)), ETerm(Atom("lt", FALSE, IV(2)))>>>>,
+     <<"any", <<ETerm(Atom("lt", FALSE, IV(2))), ETerm(Atom("eq", TRUE, BX))>>>>,
+     <<"any", <<ETerm(Atom("boom", FALSE, IV(0))), ETerm(Atom("ge", FALSE, IV(1))), ETerm(Atom("contains", FALSE, X))>>>>,
      <<"any", <<EFn(Atom("boom", FALSE, IV(0)))>>>>}
     \cup {<<"any", <<ETerm(t)>>>> : t \in AttrTerms}
     \cup {<<"all", <<ETerm(t)>>>> : t \in AllTerms} \cup {<<"all", <<ELit(X)>>>>}
